@@ -233,7 +233,7 @@ func cmdCheck(args []string) int {
 				level = "other-property"
 			case o.Level == "property" && o.Tag == "":
 				level = "support"
-			case o.Level == "safety" && r.sweep:
+			case o.Level == "safety" && (r.sweep || r.SafetyTag == *prop):
 				level = "property"
 			case o.Level == "safety":
 				level = "support"
@@ -355,7 +355,7 @@ func contractHasTag(cs *Contracts, con *FnContract, tag string) bool {
 			return true
 		}
 	}
-	if con.Opts["frame-tag"] == tag || con.Opts["property"] == tag {
+	if con.Opts["frame-tag"] == tag || con.Opts["property"] == tag || con.Opts["safety-tag"] == tag {
 		return true
 	}
 	return false
